@@ -272,6 +272,7 @@ class BaseSection(base.Sectionable):
         # raises exception if path cannot be found
         new_section = self.get_section_by_path(new_value)
         old_section = self._merged
+        old_link = self._link
         if self._link is not None:
             self.clean()
 
@@ -280,9 +281,13 @@ class BaseSection(base.Sectionable):
         try:
             self.merge(new_section, strict=False)
         except Exception:
-            # Keep the previous link (resolved as it was) if the new one is refused.
-            if old_section is not None:
-                self.merge(old_section, strict=False)
+            # Keep the previous link (resolved as it was) if the new one is refused;
+            # cleaning has rewritten its path.
+            try:
+                if old_section is not None:
+                    self.merge(old_section, strict=False)
+            finally:
+                self._link = old_link
             raise
         self._link = new_value
 
